@@ -281,11 +281,11 @@ def active_triggers(trigs: Dict[str, Any], types: List[str]) -> List[str]:
 
 # which failure classes each finding explains (must agree with findings.d/C06.json)
 EXPLAINS = {
-    "trigNullableListItem": ["valid-value-rejected"],
+    "trigNullableListItem": ["valid-value-rejected", "default-raises"],
     "trigEnumInObjectDefault": ["default-raises", "generation-crash", "import-error"],
     "trigKeywordEnumDefault": ["generation-crash", "import-error"],
     "trigObjectInListDefault": ["default-mismatch"],
-    "trigCoercingDefault": ["default-mismatch", "default-raises"],
+    "trigCoercingDefault": ["default-mismatch", "default-raises", "valid-value-rejected"],
     "trigObjectDefaultOnScalar": ["default-raises"],
     "trigNameDefect": ["generation-crash", "import-error", "valid-value-rejected", "required-not-enforced", "default-mismatch",
                        "server-default-mismatch", "class-missing"],
@@ -430,39 +430,38 @@ class Gen:
         for idx, n in enumerate(names):
             fnames = rng.sample(name_pool, rng.choice([1, 2, 3, 4, 5, 6]))
             self.inputs[n] = [self.make_field(names, idx, fn) for fn in fnames]
+        if self.clean:
+            self.repair_types(names)
+        # defaults only after every type is final (an object literal is drawn from the target's fields)
         for ix, n in enumerate(names):
             for f in self.inputs[n]:
                 if rng.random() < self.p_default:
                     f["default"] = self.lit(f["type"], 0, True, ix)
-        if self.clean:
-            self.repair(names)
+                    if self.clean:
+                        for attempt in range(12):
+                            if f["default"] is None or not any(field_triggers(self.cfg, self.defs(), f).values()):
+                                break
+                            f["default"] = self.lit(f["type"], 0, True, ix) if attempt < 10 else None
+                        if f["default"] is not None and any(field_triggers(self.cfg, self.defs(), f).values()):
+                            f["default"] = None
         defs = self.defs()
         rng.shuffle(defs)
         return {"defs": defs, "sdl": defs_sdl(defs), "cfg": self.cfg, "clean": self.clean}
 
-    def repair(self, names: List[str]) -> None:
-        """clean profile: re-draw a field until none of its triggers fires"""
+    def repair_types(self, names: List[str]) -> None:
+        """clean profile: usable Python names, and no list with a nullable item below a NonNull wrapper"""
         for ix, n in enumerate(names):
-            # python names must be usable
             for _ in range(20):
-                if not trig_name_defect(self.snake, self.inputs[n]):
+                if not trig_name_defect(self.snake, self.inputs[n]) or len(self.inputs[n]) <= 1:
                     break
                 self.inputs[n].pop(self.rng.randrange(len(self.inputs[n])))
-            for pos, f in enumerate(self.inputs[n]):
+            if trig_name_defect(self.snake, self.inputs[n]):
+                self.inputs[n] = [self.make_field(names, ix, "plain")]
+            for f in self.inputs[n]:
                 for attempt in range(30):
-                    tr = field_triggers(self.cfg, self.defs(), f)
-                    if not any(tr.values()):
+                    if not nullable_item_under_nonnull(False, f["type"]):
                         break
-                    if tr["trigNullableListItem"] or attempt > 20:
-                        nf = self.make_field(names, ix, f["name"])
-                        if attempt > 25:
-                            nf["type"] = t_named("Int")
-                        f["type"] = nf["type"]
-                        f["default"] = None
-                    else:
-                        f["default"] = self.lit(f["type"], 0, True, ix) if attempt < 10 else None
-                self.inputs[n][pos] = f
-        # a default drawn earlier may refer to a field that changed: re-validate all defaults structurally later
+                    f["type"] = self.make_field(names, ix, f["name"])["type"] if attempt < 28 else t_named("Int")
 
 
 def drop_invalid_defaults(case: Dict[str, Any]) -> Dict[str, Any]:
@@ -727,6 +726,16 @@ def same_classes(impl: Dict[str, Any], model: Dict[str, Any]) -> bool:
     return True
 
 
+def differing_classes(impl: Dict[str, Any], model: Dict[str, Any]) -> Optional[List[str]]:
+    """names of the classes whose IR differs; None when the difference is not per class"""
+    if "error" in impl or "error" in model:
+        return None
+    a, b = impl["classes"], model["classes"]
+    if [c["name"] for c in a] != [c["name"] for c in b]:
+        return None
+    return [ca["name"] for ca, cb in zip(a, b) if not same_classes({"classes": [ca]}, {"classes": [cb]})]
+
+
 def chunks(xs: List[Any], n: int) -> List[List[Any]]:
     return [xs[i:i + n] for i in range(0, len(xs), n)]
 
@@ -802,7 +811,13 @@ def check_classes(ctx: Ctx, st: Optional[LeanStatus], res: Result, n: int) -> No
         if model is not None:
             m = model[i]
             if not same_classes(o, model_classes(m)):
-                res.mismatches.append(Mismatch("classIR", inp, o, model_classes(m)))
+                # the model reproduces the generator inside the finding regions too; a difference that is confined to
+                # classes inside a region is reported as such (a repaired finding must not read as a violation)
+                bad = differing_classes(o, model_classes(m))
+                region = None
+                if bad is not None and bad and all(active_triggers(ptr, [b]) for b in bad):
+                    region = active_triggers(ptr, bad)[0]
+                res.mismatches.append(Mismatch("classIR", inp, o, model_classes(m), trigger=region))
             ltr = lean_triggers(m["triggers"])
             if ltr != ptr:
                 diff = {t: {f: (ptr[t]["fields"].get(f), ltr.get(t, {}).get("fields", {}).get(f)) for f in ptr[t]["fields"]
@@ -1220,6 +1235,30 @@ def value_hits_nullable_item(dn: Dict[str, Dict[str, Any]], t: List[Any], v: Any
     return False
 
 
+def lit_to_value(l: Dict[str, Any]) -> Any:
+    k = l["k"]
+    if k == "null":
+        return None
+    if k == "list":
+        return [lit_to_value(x) for x in l["v"]]
+    if k == "obj":
+        return {kk: lit_to_value(v) for kk, v in l["v"]}
+    if k == "float":
+        return float(l["v"])
+    return l["v"]
+
+
+def default_hits_nullable_item(case: Dict[str, Any], scope: List[str]) -> bool:
+    """does a default literal of a type in scope put a null where C06-F1 mis-annotates?  (then the default_factory's
+    model_validate raises, which inside a nested class looks like a refusal of the outer value)"""
+    dn = by_name(case["defs"])
+    for t in scope:
+        for f in dn[t]["fields"]:
+            if f["default"] is not None and value_hits_nullable_item(dn, f["type"], lit_to_value(f["default"])):
+                return True
+    return False
+
+
 def judge_package(case: Dict[str, Any], obs: Dict[str, Any], trigs: Dict[str, Any], res: Result) -> None:
     """the property on the real code; every deviation is a Failure with the trigger that explains it (or None)"""
     dn = by_name(case["defs"])
@@ -1261,7 +1300,7 @@ def judge_package(case: Dict[str, Any], obs: Dict[str, Any], trigs: Dict[str, An
                 continue
             res.count("oracle:values-accepted-by-graphql-core")
             v = rec["value"]
-            hits_f1 = value_hits_nullable_item(dn, t_named(tname), v)
+            hits_f1 = value_hits_nullable_item(dn, t_named(tname), v) or default_hits_nullable_item(case, scope)
             for how in ("alias", "name", "kw", "members"):
                 r = rec[how]
                 if "ok" in r:
@@ -1269,7 +1308,8 @@ def judge_package(case: Dict[str, Any], obs: Dict[str, Any], trigs: Dict[str, An
                 if r["err"].startswith("default:"):
                     fail("default-raises", scope, f"{tname} built {how} from {json.dumps(v)[:200]}: {r}", {"type": tname, "value": v, "how": how})
                 else:
-                    only = ["trigNameDefect"] + (["trigNullableListItem"] if hits_f1 else [])
+                    # a ValidationError raised by a default_factory of a NESTED class is indistinguishable from a refusal
+                    only = ["trigNameDefect", "trigCoercingDefault"] + (["trigNullableListItem"] if hits_f1 else [])
                     fail("valid-value-rejected", scope, f"{tname} built {how} from {json.dumps(v)[:200]}: {r}",
                          {"type": tname, "value": v, "how": how}, only=only)
             for fn, r in rec.get("lacking", {}).items():
@@ -1295,14 +1335,17 @@ def judge_package(case: Dict[str, Any], obs: Dict[str, Any], trigs: Dict[str, An
                         act_all = active_triggers(trigs, scope)
                         res.failures.append(Failure("default-raises", explain("default-raises", act_all), {**inp, **ext}, f"{tname} without {fn}: {e}"[:500]))
                     else:
-                        only = ["trigNameDefect"] + (["trigNullableListItem"] if hits_f1 else [])
+                        only = ["trigNameDefect", "trigCoercingDefault"] + (["trigNullableListItem"] if hits_f1 else [])
                         fail("valid-value-rejected", scope, f"{tname} without {fn}: {e}", ext, only=only)
                     continue
                 if not plain_matches(dn, rb["attr"], want):
                     res.failures.append(Failure("default-mismatch", explain("default-mismatch", act), {**inp, **ext},
                                                 f"{tname}.{fn} reads back {json.dumps(rb['attr'])[:200]}, coerced schema default is {json.dumps(want)[:200]}"))
                 srv = rb["server"]
-                if "ok" not in srv or not isinstance(srv["ok"], dict) or fn not in srv["ok"] or not common.same_json(srv["ok"][fn], want):
+                if "ok" not in srv:
+                    # the server refuses the whole dump: the cause can sit anywhere in the value, not in this field
+                    fail("server-default-mismatch", scope, f"{tname}.{fn}: server refuses the dump: {json.dumps(srv)[:200]}", ext)
+                elif not isinstance(srv["ok"], dict) or fn not in srv["ok"] or not common.same_json(srv["ok"][fn], want):
                     res.failures.append(Failure("server-default-mismatch", explain("server-default-mismatch", act), {**inp, **ext},
                                                 f"{tname}.{fn}: server sees {json.dumps(srv)[:200]}, schema default is {json.dumps(want)[:200]}"))
             res.seen([case["sdl"], tname, v], nontrivial=bool(v))
@@ -1522,15 +1565,17 @@ def run(ctx: Ctx, st: Optional[LeanStatus]) -> Result:
     res.extra["fingerprints"] = common.fingerprints(ctx, fingerprint_items())
     engine.cleanup_scratch()
     replay_corpus(ctx, st, res)
-    check_classes(ctx, st, res, ctx.budget(500, 6000))
-    check_coerce(ctx, st, res, ctx.budget(120, 1500))
-    check_packages(ctx, st, res, ctx.budget(90, 900))
+    check_classes(ctx, st, res, ctx.budget(1500, 12000))
+    check_coerce(ctx, st, res, ctx.budget(300, 2500))
+    check_packages(ctx, st, res, ctx.budget(260, 2600))
     res.oracle_only += [
         "unparse -> autoflake -> isort -> black -> import of input_types.py (exercised by the package oracle, not modelled)",
         "keyword construction with enum MEMBERS instead of names (real pydantic only)",
         "Upload fields: only null/absent (an Upload instance has no JSON form)",
-        "object-literal defaults: default_readback is proved for literal shapes without object literals; objects are covered by "
-        "correspondence (`readback`/`construct`) and the oracle",
+        "object-literal defaults: default_readback is proved for literal shapes without object literals; defaults containing object "
+        "literals are covered by the construct correspondence (real pydantic vs Spec/PydInput) and the oracle",
+        "Proved_06 (InputRel.related) is evaluated by the driver on every trigger-free generated case (input_distribution "
+        "classes:related-holds / related-fails); that the generator establishes it whenever no trigger fires is measured, not proved",
     ]
     res.assumptions += [
         "canonical form: IDs as strings, enum values by name, lists as lists, custom scalars typed as configured (DESIGN.md §3.0)",
